@@ -23,6 +23,7 @@ ASSUMPTIONS = {
     "A12": "A12: ndarray::Array1::linspace(a,b,n)[i] = a + i(b-a)/(n-1); from_shape_fn, mapv, collect preserve index order",
     "A13": "A13: cache hit/miss counters stay below 2^64-1",
     "A14": "A14: the real-function axioms of the [R] prelude (exp/ln/sqrt/atan textbook identities); consistency witnessed by the failing canary",
+    "A16": "A16: the constructors of num-dual 0.11 written out in the virial unit (zero / from / from_re / one / derivative set exactly the fields their names say; field names re, eps, eps1, eps2, eps1eps2, v1, v2, v3)",
     "A15": "A15: collecting an iterator of (key, value) pairs into a std HashMap inserts them in iteration order, a later entry replacing an earlier one with an equal key; String equality is equality of the abstract identifier strings; derived Hash/Eq of the key type agree",
 }
 
